@@ -184,6 +184,9 @@ class IterativeAggregation(AccessorBase):
             try:
                 (begin_ix,) = _index.get_indexer([begin], method=method) + 1
             except KeyError:
+                begin_ix = 0
+            # get_indexer marks labels it cannot locate with -1
+            if begin_ix <= 0:
                 raise ValueError(
                     f"Value {begin} for 'begin' not found in index for dim {dim}"
                 ) from None
@@ -194,6 +197,9 @@ class IterativeAggregation(AccessorBase):
             try:
                 (end_ix,) = _index.get_indexer([end], method=method)
             except KeyError:
+                end_ix = -1
+            # get_indexer marks labels it cannot locate with -1
+            if end_ix < 0:
                 raise ValueError(
                     f"Value {end} for 'end' not found in index for dim {dim}"
                 ) from None
